@@ -4048,7 +4048,7 @@ SITES = {
     "C10": [report_clause_content],
     "C15": [scope_resolution, scope_discipline, scope_delegations, variable_tables, param_rule_call, param_ctx_resolve],
     "C04": [rule_status_semantics, root_scope_rule_table, scope_delegations, scope_resolution],
-    "C01": [rule_status_semantics, root_scope_rule_table, scope_discipline],
+    "C01": [rule_status_semantics, root_scope_rule_table, scope_discipline, scope_resolution, scope_delegations, variable_tables],
     "C17": [merge_map, merge_unwrap, param_files_fold_step, data_input_params_wiring, structured_merge_closure, supported_extension_predicate],
     "C08": [merge_unwrap, rulegen_unwrap, test_exit_code_domain],
 }
